@@ -170,7 +170,7 @@ async def wire(net, hyg, plan):
                                      "msg": f"{where}: got {got['codes']} pwd={got['pwd']}, control {ctl['codes']} pwd={ctl['pwd']}"})
                 if len(sample) < 6:
                     sample.append({"verb": verb, "target": target, "alias": arg, "cwd": cwd, "allowed": allowed, "codes": got["codes"]})
-        await w.server.close()
+        await w.stop()
         return {"violations": viol, "monitors": mon, "sigs": sigs, "sample": {"table": plan["table"], "probes": sample}}
     finally:
         w.cleanup()
@@ -223,7 +223,7 @@ def run_case(case):
         return await wire(net, hyg, case)
     res, info = W.run(main, seed=case["seed"], net_kwargs=dict(latency=0.0005))
     if res is None:
-        return {"inconclusive": info.get("deadlock") or info.get("error"), "trace": info.get("trace", "")}
+        return W.failed(info)
     for v in res["violations"]:
         v["replay_case"] = case
     return res
